@@ -31,6 +31,7 @@ type Exec struct {
 	curFn     string
 	curSafety bool
 	bounded   int
+	inlineDepthNow int
 }
 
 type Frame struct {
@@ -52,6 +53,7 @@ type Frame struct {
 	iters    map[ssa.Value]*Cell
 	loopOrd  map[*ssa.BasicBlock]int
 	decEntry map[*ssa.BasicBlock]string
+	loopPre  map[*ssa.BasicBlock]*State
 	parent   *Frame
 }
 
@@ -145,6 +147,26 @@ func (x *Exec) oblige(st *State, kind, text string, pos token.Pos, goal string, 
 		o.Vars = x.top.modelVars()
 	}
 	vc.obls = append(vc.obls, o)
+}
+
+// cover records a reachability query: the path condition must be satisfiable,
+// otherwise everything proved under it is vacuous.
+func (x *Exec) cover(st *State, what string, pos token.Pos) {
+	if x.noObl > 0 || x.inlineDepthNow > 0 {
+		return
+	}
+	vc := x.vc
+	key := x.curFn + "#cover#" + what
+	vc.idCount[key]++
+	id := key
+	if n := vc.idCount[key]; n > 1 {
+		id = fmt.Sprintf("%s#%d", key, n)
+	}
+	o := &Obl{ID: id, Kind: "cover", Func: x.curFn, Text: what, N: len(vc.lines), Goal: tNot(st.pc), vc: vc}
+	if pos.IsValid() {
+		o.Pos = x.w.fset.Position(pos)
+	}
+	vc.covers = append(vc.covers, o)
 }
 
 // obligeAssume emits the obligation and then continues under the assumption
@@ -324,10 +346,33 @@ func (x *Exec) loadPath(st *State, p *PtrPath) *Val {
 
 // refFacts: every reference read from memory was allocated earlier.
 func (x *Exec) refFacts(st *State, v *Val) {
-	switch under(v.Ty).(type) {
-	case *types.Pointer, *types.Slice, *types.Map:
-		if len(v.L) > 0 && v.X == nil {
-			x.knownRef(st, v.L[0])
+	if v.X != nil {
+		if _, isPtr := v.X.(*PtrPath); isPtr {
+			return
+		}
+	}
+	x.refFactsAt(st, v.Ty, v.L)
+}
+
+func (x *Exec) refFactsAt(st *State, t types.Type, L []string) {
+	switch u := under(t).(type) {
+	case *types.Pointer, *types.Slice, *types.Map, *types.Chan:
+		if len(L) > 0 {
+			x.knownRef(st, L[0])
+		}
+	case *types.Struct:
+		off := 0
+		for i := 0; i < u.NumFields(); i++ {
+			n := nLeaves(u.Field(i).Type())
+			x.refFactsAt(st, u.Field(i).Type(), L[off:off+n])
+			off += n
+		}
+	case *types.Tuple:
+		off := 0
+		for i := 0; i < u.Len(); i++ {
+			n := nLeaves(u.At(i).Type())
+			x.refFactsAt(st, u.At(i).Type(), L[off:off+n])
+			off += n
 		}
 	}
 }
@@ -483,14 +528,39 @@ func (x *Exec) seqOf(st *State, v *Val) []string {
 	}
 	if isSlice(v.Ty) {
 		et := sliceElem(v.Ty)
-		if nLeaves(et) != 1 {
-			panic("seqOf: composite element type")
+		ss := leafSorts(et)
+		ln := leafNames(et)
+		var out []string
+		for j, s := range ss {
+			n := "A_" + typeKey(et) + "_" + ln[j]
+			h := x.heap(st, n, arrSort(arrSort(s)))
+			out = append(out, tSel(h, v.L[0]))
 		}
-		n := "A_" + typeKey(et) + "_"
-		h := x.heap(st, n, arrSort(arrSort(leafSorts(et)[0])))
-		return []string{tSel(h, v.L[0]), v.L[1], v.L[2]}
+		return append(out, v.L[1], v.L[2])
 	}
 	panic(fmt.Sprintf("seqOf %v", v.Ty))
+}
+
+// seq accessors: a seq value is [arr_0 .. arr_{n-1}, off, len] with one array
+// per leaf of the element type (n == 1 for bytes and strings).
+func seqOff(s []string) string { return s[len(s)-2] }
+func seqLen(s []string) string { return s[len(s)-1] }
+
+func seqSorts(et types.Type) []string {
+	var out []string
+	for _, s := range leafSorts(et) {
+		out = append(out, arrSort(s))
+	}
+	return append(out, sInt, sInt)
+}
+
+func seqIndex(s []string, et types.Type, i string) *Val {
+	n := len(s) - 2
+	out := &Val{Ty: et, L: make([]string, n)}
+	for j := 0; j < n; j++ {
+		out.L[j] = tSel(s[j], tAdd(seqOff(s), i))
+	}
+	return out
 }
 
 // ---------------------------------------------------------------------
